@@ -5,7 +5,7 @@ open Main_common
    written / touched / created before each; entry = <name-hex>:<kind>:<mtime offset from the first pass, seconds> *)
 let entry e =
   match String.split_on_char ':' e with
-  | [n; k; off] -> { de_name = bytes_of_hex n; de_kind = n_of_int (let k = int_of_string k in if k = 3 then 1 else k) (* 3 = a directory with files inside: a directory *); de_mtime = z_of_int (int_of_string off) }
+  | [n; k; off] -> { de_name = bytes_of_hex n; de_kind = n_of_int (let k = int_of_string k in if k = 3 then 1 else if k = 4 then 2 else k) (* 3 = a directory with files inside: a directory; 4 = a symbolic link to a regular file whose own mtime is the given one: not a regular file *); de_mtime = z_of_int (int_of_string off) }
   | _ -> failwith "bad entry"
 
 let run (line : string) : string =
